@@ -18,13 +18,15 @@ import (
 // ---------- formula trees ----------
 
 type F struct {
-	Op   string // atom | and | or | not | imp | iff | forall | exists
-	S    string
-	Kids []*F
-	Var  string
-	Lo   string
-	Hi   string
-	Body func(term string) *F
+	Op       string // atom | and | or | not | imp | iff | forall | exists
+	S        string
+	Kids     []*F
+	Var      string
+	Lo       string
+	Hi       string
+	Body     func(term string) *F
+	seqs     []string
+	seqsDone bool
 }
 
 func atom(s string) *F { return &F{Op: "atom", S: s} }
@@ -149,27 +151,39 @@ func (x *Exec) assumeF(st *State, f *F) {
 	x.assumeNNF(st, nnf(f, false))
 }
 
-func (x *Exec) assumeNNF(st *State, f *F) {
+func (x *Exec) assumeNNF(st *State, f *F) { x.assumeG(st, "true", f) }
+
+// assumeG assumes guard ==> f for f in NNF, keeping quantifiers structured
+func (x *Exec) assumeG(st *State, guard string, f *F) {
+	if guard == "false" {
+		return
+	}
 	switch f.Op {
 	case "atom":
-		st.assume(f.S)
+		st.assume(sImp(guard, f.S))
 	case "and":
 		for _, k := range f.Kids {
-			x.assumeNNF(st, k)
+			x.assumeG(st, guard, k)
 		}
 	case "exists":
 		c := x.decls.Fresh("sk."+f.Var, "Int")
-		st.assume(sAnd(sLe(f.Lo, c), sLt(c, f.Hi)))
+		st.assume(sImp(guard, sAnd(sLe(f.Lo, c), sLt(c, f.Hi))))
 		st.addIdx(c)
-		x.assumeNNF(st, f.Body(c))
+		x.assumeG(st, guard, x.bodyLogged(st, f, c))
 	case "forall":
-		st.pc = append(st.pc, PCItem{QF: f})
-	case "or":
-		if !f.hasQ() {
-			st.assume(render(f))
+		if guard == "true" {
+			st.pc = append(st.pc, PCItem{QF: f})
 			return
 		}
-		// or(A.., forall B) with exactly one quantified disjunct: pull the quantifier out
+		body := f.Body
+		st.pc = append(st.pc, PCItem{QF: &F{Op: "forall", Var: f.Var, Lo: f.Lo, Hi: f.Hi, Body: func(t string) *F {
+			return &F{Op: "or", Kids: []*F{atom(sNot(guard)), body(t)}}
+		}}})
+	case "or":
+		if !f.hasQ() {
+			st.assume(sImp(guard, render(f)))
+			return
+		}
 		var plain []string
 		var qs []*F
 		for _, k := range f.Kids {
@@ -179,23 +193,68 @@ func (x *Exec) assumeNNF(st *State, f *F) {
 				plain = append(plain, render(k))
 			}
 		}
-		if len(qs) == 1 && qs[0].Op == "forall" {
-			q := qs[0]
-			pre := sOr(plain...)
-			body := q.Body
-			st.pc = append(st.pc, PCItem{QF: &F{Op: "forall", Var: q.Var, Lo: q.Lo, Hi: q.Hi, Body: func(t string) *F {
-				return &F{Op: "or", Kids: []*F{atom(pre), body(t)}}
-			}}})
+		if len(qs) == 1 {
+			x.assumeG(st, sAnd(guard, sNot(sOr(plain...))), qs[0])
 			return
 		}
-		st.assume(render(f))
+		st.assume(sImp(guard, render(f)))
 	default:
-		st.assume(render(f))
+		st.assume(sImp(guard, render(f)))
 	}
 }
 
 // instTerms: instantiate a positive forall over the given terms (plus the quantified formula itself)
-func (x *Exec) instantiate(f *F, terms []string, depth int, out *[]string) {
+// seqsOf discovers which sequences the bound variable of a quantifier indexes (by evaluating the body with a probe variable)
+func (x *Exec) seqsOf(f *F) []string {
+	if f.seqsDone {
+		return f.seqs
+	}
+	var got []string
+	saved := x.probe
+	x.probe = &got
+	func() {
+		defer func() { recover() }()
+		render(f.Body(f.Var + "?probe"))
+	}()
+	x.probe = saved
+	f.seqsDone = true
+	f.seqs = got
+	return got
+}
+
+// bodyLogged evaluates a quantifier body at term t and records the (index, sequence) pairs it reads into st
+func (x *Exec) bodyLogged(st *State, f *F, t string) *F {
+	var buf []IdxT
+	saved := x.idxLog
+	x.idxLog = &buf
+	b := f.Body(t)
+	if b.hasQ() {
+		// nested quantifiers are evaluated lazily; force one rendering so that their reads are seen
+		func() {
+			defer func() { recover() }()
+			render(b)
+		}()
+	}
+	x.idxLog = saved
+	for _, it := range buf {
+		st.addIdxSeq(it.T, it.Seq)
+	}
+	return b
+}
+
+func relevant(t IdxT, seqs []string) bool {
+	if len(seqs) == 0 || t.Seq == "" {
+		return true
+	}
+	for _, s := range seqs {
+		if s == t.Seq || strings.Contains(s, "?probe") {
+			return true
+		}
+	}
+	return false
+}
+
+func (x *Exec) instantiate(f *F, terms []IdxT, depth int, out *[]string) {
 	switch f.Op {
 	case "forall":
 		if x.bound >= 0 {
@@ -209,15 +268,28 @@ func (x *Exec) instantiate(f *F, terms []string, depth int, out *[]string) {
 			}
 			return
 		}
-		*out = append(*out, render(f))
+		if x.withQ {
+			*out = append(*out, render(f))
+		}
 		if depth > 1 {
+			if !x.withQ {
+				*out = append(*out, "true")
+			}
 			return
 		}
-		lim := len(terms)
-		if depth == 1 && lim > 8 {
-			lim = 8
-		}
-		for _, t := range terms[:lim] {
+		seqs := x.seqsOf(f)
+		n := 0
+		done := map[string]bool{}
+		for _, it := range terms {
+			if done[it.T] || !relevant(it, seqs) {
+				continue
+			}
+			done[it.T] = true
+			n++
+			if (depth == 0 && n > 16) || (depth == 1 && n > 8) {
+				break
+			}
+			t := it.T
 			var sub []string
 			x.instantiate(f.Body(t), terms, depth+1, &sub)
 			*out = append(*out, sImp(sAnd(sLe(f.Lo, t), sLt(t, f.Hi)), sAnd(sub...)))
@@ -279,7 +351,7 @@ func (x *Exec) proveNNF(fr *Frame, st *State, name, kind string, f *F, in ssa.In
 		c := x.decls.Fresh("sk."+f.Var, "Int")
 		s2.assume(sAnd(sLe(f.Lo, c), sLt(c, f.Hi)))
 		s2.addIdxFront(c)
-		x.proveNNF(fr, s2, name, kind, f.Body(c), in)
+		x.proveNNF(fr, s2, name, kind, x.bodyLogged(s2, f, c), in)
 		return
 	case "or":
 		if f.hasQ() {
@@ -317,7 +389,14 @@ func (x *Exec) proveNNF(fr *Frame, st *State, name, kind string, f *F, in ssa.In
 			x.emit(fr, s2, name, kind, atom(sOr(ds...)), in)
 			return
 		}
-		cands := append([]string{}, st.idx...)
+		var cands []string
+		seen := map[string]bool{}
+		for _, it := range st.idx {
+			if !seen[it.T] {
+				seen[it.T] = true
+				cands = append(cands, it.T)
+			}
+		}
 		cands = append(cands, f.Lo, sSub(f.Hi, "1"))
 		if len(cands) > 14 {
 			cands = cands[:14]
@@ -333,7 +412,7 @@ func (x *Exec) proveNNF(fr *Frame, st *State, name, kind string, f *F, in ssa.In
 }
 
 func (st *State) addIdxFront(t string) {
-	st.idx = append([]string{t}, st.idx...)
+	st.idx = append([]IdxT{{t, ""}}, st.idx...)
 }
 
 // ---------- spec environment ----------
@@ -459,7 +538,13 @@ func (e *SpecEnv) eval(n ast.Expr) Val {
 		i := e.eval(v.Index)
 		switch b.K {
 		case KSlice:
-			e.st.addIdx(i.S)
+			e.st.addIdxSeq(i.S, b.Arr)
+			if e.x.idxLog != nil {
+				*e.x.idxLog = append(*e.x.idxLog, IdxT{i.S, b.Arr})
+			}
+			if e.x.probe != nil && strings.Contains(i.S, "?probe") {
+				*e.x.probe = append(*e.x.probe, b.Arr)
+			}
 			return e.x.elemRead(e.st, b, i.S)
 		case KRef:
 			if _, ok := b.T.Underlying().(*types.Map); ok {
@@ -858,10 +943,10 @@ func (e *SpecEnv) callFunc(fn *ssa.Function, args []Val) Val {
 
 // pureApply: uninterpreted application shared by code and specs; contract ensures are instantiated on it
 func (e *SpecEnv) pureApply(key string, con *Contract, sig *types.Signature, args []Val, fn *ssa.Function) Val {
-	return e.x.pureApp(e.fr, e.st, key, con, sig, args, fn)
+	return e.x.pureApp(e.fr, e.st, key, con, sig, args, fn, false)
 }
 
-func (x *Exec) pureApp(fr *Frame, st *State, key string, con *Contract, sig *types.Signature, args []Val, fn *ssa.Function) Val {
+func (x *Exec) pureApp(fr *Frame, st *State, key string, con *Contract, sig *types.Signature, args []Val, fn *ssa.Function, preProved bool) Val {
 	var sorts, terms []string
 	for _, a := range args {
 		if a.K == KOpaque || a.K == KFunc || a.K == KAddr {
@@ -916,7 +1001,7 @@ func (x *Exec) pureApp(fr *Frame, st *State, key string, con *Contract, sig *typ
 				out[i] = fnm
 				x.decls.m[fnm] = fmt.Sprintf("(declare-const %s %s)", fnm, c.Sort)
 			} else {
-				out[i] = "(" + fnm + " " + strings.Join(terms, " ") + ")"
+				out[i] = x.decls.Define("app."+sanitize(shortKey(key))+c.Suffix, c.Sort, "("+fnm+" "+strings.Join(terms, " ")+")")
 			}
 		}
 		v := unflatten(t, out)
@@ -945,29 +1030,40 @@ func (x *Exec) pureApp(fr *Frame, st *State, key string, con *Contract, sig *typ
 			res.Fs = append(res.Fs, mk(fmt.Sprintf(".%d", i), sig.Results().At(i).Type()))
 		}
 	}
-	if con != nil && (len(con.Ensures) > 0) {
-		// instantiate requires ==> ensures on this application (once per distinct application term per path)
+	if con != nil && (len(con.Ensures) > 0 || len(con.Pre) > 0) {
+		// the application must be well-defined (requires proved here unless the caller already did), then its ensures hold
 		sig0 := base + "(" + strings.Join(terms, ",") + ")"
 		if !st.applied[sig0] {
 			st.applied[sig0] = true
 			names := x.bindArgs(sig, args)
 			x.bindResults(names, sig, res)
 			env := &SpecEnv{x: x, fr: fr, st: st, old: st, names: names, pkg: con.Pkg, depth: 1}
-			x.evalLets(env, con)
-			var pre []*F
-			for _, r := range con.Requires {
-				pre = append(pre, env.evalBool(r.Expr).formula())
-			}
-			for _, en := range con.Ensures {
-				f := env.evalBool(en.Expr).formula()
-				if len(pre) > 0 {
-					f = &F{Op: "imp", Kids: []*F{{Op: "and", Kids: pre}, f}}
+			i := 0
+			for _, p := range con.Pre {
+				if p.Let != "" {
+					env.names[p.Let] = env.eval(p.C.Expr)
+					continue
+				}
+				f := env.evalBool(p.C.Expr).formula()
+				if !preProved && !x.noWD {
+					x.proveF(fr, st, fmt.Sprintf("wd:%s.pre[%d]", shortKey(key), i), "well-defined", f, nil)
 				}
 				x.assumeF(st, f)
+				i++
+			}
+			for _, en := range con.Ensures {
+				x.assumeF(st, env.evalBool(en.Expr).formula())
 			}
 		}
 	}
 	return res
+}
+
+func shortKey(key string) string {
+	if i := strings.LastIndex(key, "/"); i >= 0 {
+		return key[i+1:]
+	}
+	return key
 }
 
 func sortedKeys(m map[string]types.Type) []string {
@@ -1260,6 +1356,13 @@ func (e *SpecEnv) builtinSpec(name string, c *ast.CallExpr) (Val, bool) {
 			sfail("has() on %s", kindName(m.K))
 		}
 		return boolVal(e.x.mapHas(e.st, m, k)), true
+	case "res0", "res1", "res2", "res3":
+		a := arg(0)
+		i := int(name[3] - '0')
+		if a.K != KTuple || i >= len(a.Fs) {
+			sfail("%s() of a non-tuple", name)
+		}
+		return a.Fs[i], true
 	case "ite":
 		cnd, a, b := e.evalBool(c.Args[0]), arg(1), arg(2)
 		return mergeVal(cnd.S, a, b), true
